@@ -96,6 +96,7 @@ fn run_one(k: &Keys, s: &Value) -> Value {
     let signature = match sigby.as_str() {
         "absent" => None,
         "garbage" => Some(vec![0x5a; 64]),
+        "empty" => Some(vec![]), // the signature field is present, zero bytes long
         w => {
             let mut bytes = b"libp2p-pubsub:".to_vec();
             bytes.extend_from_slice(&msg.encode_to_vec());
@@ -175,7 +176,7 @@ fn grid(kts: &[&str]) -> Vec<Value> {
         for kt in kts {
             for from in ["absent", "empty", "garbage", "A", "B"] {
                 for seqno in ["absent", "empty", "4", "8"] {
-                    for sigby in ["absent", "garbage", "A", "B"] {
+                    for sigby in ["absent", "garbage", "empty", "A", "B"] {
                         for key in ["absent", "garbage", "A", "B"] {
                             for mutn in ["none", "from_swap", "data_flip", "data_drop", "seqno_flip", "seqno_drop", "topic_change", "sig_flip"] {
                                 if applicable(from, seqno, sigby, mutn) {
